@@ -394,7 +394,8 @@ silent('c20-continue-form', 'C20', LG,
        "            if record.levelno < lev:\n                continue\n            self.send_log(  # pylint: disable=not-callable\n                conn, modname, LEVEL_NAMES[record.levelno],\n                record.getMessage())")
 firing('c20-off-not-removed', 'C20', LG,
        "        if level == OFF:\n            subscriptions.pop(conn, None)\n        else:\n            subscriptions[conn] = level", "        subscriptions[conn] = level", 'OFF removes the entry')
-silent('c20-len-minus-form', 'C20', LG, "            for filepath in files[:-self.max_days]:", "            for filepath in files[:len(files) - self.max_days]:")
+firing('c20-len-minus-form', 'C20', LG, "            for filepath in files[:-self.max_days]:", "            for filepath in files[:len(files) - self.max_days]:", 'files removed')
+silent('c20-guarded-prefix', 'C20', LG, "            for filepath in files[:-self.max_days]:", "            for filepath in files[:-1 * self.max_days] if False else files[:-self.max_days]:")
 firing('c20-reset-no-logging-off', 'C20', DP,
        "        self.set_all_log_levels(conn, 'off')\n        self._active_connections.discard(conn)", "        self._active_connections.discard(conn)", 'reset_connection:switches logging off')
 
